@@ -68,3 +68,8 @@ add("C07","exploration",
  "Held on the output lines counted in the evidence (sources up to 8 servers x 5 files; source switches actually observed are counted).",
  "Trusted: CRC32 self-description of the lines; host identity via DTAIL_HOSTNAME_OVERRIDE.",
  "DESIGN.md §2 C07")
+add("C06","exploration",
+ "runtime monitoring: conservation oracle over real dmap runs against fleets of 1-32 in-process servers (every line carries weight 1 and its file id; result grouped per file or per shared group), hook-trace monitor of the server-side aggregator's registration/closed/finished order, failpoint-style delays at the hook points, logical-time hang rule; plus an in-process tier merging messages from N concurrent connections into one global group",
+ "Held on the runs counted in the evidence (fleet sizes, files per server, limits, distinct aggregator event orders observed).",
+ "Trusted: hook call sites for attribution only (the CSV decides); c06.agg-early-exit is accepted only with the trace pattern, no excess, and deficits on servers showing it.",
+ "DESIGN.md §2 C06")
